@@ -50,6 +50,10 @@ pub struct Case {
     /// transport must remain a prefix of the fault-free output
     #[serde(default)]
     pub fault: Option<(u32, u8)>,
+    /// what the client announced in its handshake response: (max_packet_size, character set) -
+    /// the server's framing must not depend on it
+    #[serde(default)]
+    pub announced: Option<(u32, u8)>,
 }
 
 const U24: usize = MAX_PAYLOAD;
@@ -263,6 +267,7 @@ fn gen_case(g: &mut G<'_>, target: usize, assembly: Assembly) -> Case {
         write_accept: if g.chance(1, 3) { vec![*g.pick(&[1usize << 16, 4096, 1 << 20, 77_777])] } else { vec![] },
         bin_as_str: g.coin(),
         fault: None,
+        announced: if g.coin() { Some(crate::gens::gen_client_announcements(g)) } else { None },
     }
 }
 
@@ -272,7 +277,7 @@ impl Prop for C04 {
         "C04"
     }
     fn rule(&self) -> String {
-        "cases = one logical server message of a chosen size, realised by an assembly (text row of 1-4 cells whose encoded sizes sum to the target with cell boundaries before/at/after the packet limit; binary row; ERR message; column definition with a huge name; a text row abandoned with finish_error after its first 1-2 cells were written), preceded/followed by ordinary rows and PINGs, optionally with short transport writes; 1 case in 600 is instead a text or binary row of 17-70 MB laid out against the packet boundaries (cells of 1x-3x the packet size, several per row, small cells before / between / after). One case in four is run on a transport that fails once at a generated write()/flush() call (ConnectionReset, Other, BrokenPipe, TimedOut, WouldBlock or Interrupted; with short writes, so that the failure also falls inside packets) and works again afterwards: when the failure cut a packet short, the bytes handed to the transport before and after it must be a prefix of the fault-free output (a truncated packet can only be continued where it stopped); when it fell on a packet boundary they must be whole packets. Sizes: enumerated k*(2^24-1)+d for k in {1,2}, d in a window around 0, plus random sizes (small ones by the thousands). Oracle: independent framer over the raw output (consumed exactly; every fragment but the last of a long message is 0xFFFFFF bytes, the last shorter, possibly empty), reassembled messages decoded and compared with the values written. Non-trivial = message >= 2^24-1-8 bytes.".into()
+        "cases = one logical server message of a chosen size, realised by an assembly (text row of 1-4 cells whose encoded sizes sum to the target with cell boundaries before/at/after the packet limit; binary row; ERR message; column definition with a huge name; a text row abandoned with finish_error after its first 1-2 cells were written), preceded/followed by ordinary rows and PINGs, optionally with short transport writes, after a handshake response that announces a generated max_packet_size (0, 1 KiB ... 1 GiB; the server's framing must not depend on it) and character set; 1 case in 600 is instead a text or binary row of 17-70 MB laid out against the packet boundaries (cells of 1x-3x the packet size, several per row, small cells before / between / after). One case in four is run on a transport that fails once at a generated write()/flush() call (ConnectionReset, Other, BrokenPipe, TimedOut, WouldBlock or Interrupted; with short writes, so that the failure also falls inside packets) and works again afterwards: when the failure cut a packet short, the bytes handed to the transport before and after it must be a prefix of the fault-free output (a truncated packet can only be continued where it stopped); when it fell on a packet boundary they must be whole packets. Sizes: enumerated k*(2^24-1)+d for k in {1,2}, d in a window around 0, plus random sizes (small ones by the thousands). Oracle: independent framer over the raw output (consumed exactly; every fragment but the last of a long message is 0xFFFFFF bytes, the last shorter, possibly empty), reassembled messages decoded and compared with the values written. Non-trivial = message >= 2^24-1-8 bytes.".into()
     }
     fn assumptions(&self) -> Vec<String> {
         vec!["messages beyond ~4*(2^24-1) bytes are not explored".into()]
@@ -390,6 +395,13 @@ impl Prop for C04 {
         let mut conv = conv;
         if matches!(case.assembly, Assembly::AbandonedRow { .. }) {
             conv.forget_on_refusal = true;
+        }
+        if let (Some((mp, cs)), HsKind::V41 { max_packet, charset, .. }) = (case.announced, &mut conv.hs.kind) {
+            *max_packet = mp;
+            *charset = cs;
+            if mp >= 1024 && (mp as usize) < U24 && big_len >= mp as usize {
+                ex.class("message-longer-than-the-max_packet_size-the-client-announced");
+            }
         }
         if let Assembly::Layout { row, .. } = &case.assembly {
             ex.nontrivial = true;
